@@ -588,8 +588,8 @@ def _add(a, b):
     lo, hi = a.lo + b.lo, a.hi + b.hi
     if lo == hi:
         return lo
-    w = _bits_for(lo, hi)
-    return SymInt(a.ext(max(w, a.w, b.w)) + b.ext(max(w, a.w, b.w)), lo, hi) if False else _iv(a.ext(w) + b.ext(w), lo, hi)
+    w = max(_bits_for(lo, hi), _bits_for(a.lo, a.hi), _bits_for(b.lo, b.hi))    # the sum of a negative and a positive interval may need fewer bits than an operand
+    return _iv(a.ext(w) + b.ext(w), lo, hi)
 
 
 def _sub(a, b):
